@@ -11,7 +11,7 @@ from vsc.model.expr_dynamic_model import ExprDynamicModel
 class DynamicExprResetVisitor(ModelVisitor):
     
     def __init__(self):
-        pass
+        super().__init__()
     
     def visit_expr_dynamic(self, e:ExprDynamicModel):
         e.reset()
